@@ -569,6 +569,7 @@ func TestVerifC14RHP2(t *testing.T) {
 				kind    string
 				present bool
 				idx     uint64
+				newRoot types.Hash256
 			}
 			var metas []meta
 			cur := uint64(nsec) // expected sectors as the actions are applied
@@ -659,8 +660,17 @@ func TestVerifC14RHP2(t *testing.T) {
 					}
 				case "update":
 					if a.A < uint64(len(sim)) {
-						metas[k].present = sim[a.A][0] == 0xFF && sim[a.A][1] == 0xFE || readable(sim[a.A])
-						sim[a.A] = types.Hash256{0xFF, 0xFE, byte(k)} // placeholder: follow where the updated root ends up
+						// the host patches what it reads under the current root and installs the
+						// root of the result (which it stores under the OLD root, so the new one
+						// is readable only if it existed before)
+						sector, err := h.node.Volumes.ReadSector(sim[a.A])
+						metas[k].present = err == nil
+						if err == nil && a.B <= rhp2.SectorSize && uint64(len(a.Data)) <= rhp2.SectorSize-a.B {
+							updated := *sector
+							copy(updated[a.B:], a.Data)
+							metas[k].newRoot = rhp2.SectorRoot(&updated)
+							sim[a.A] = metas[k].newRoot
+						}
 					}
 				}
 			}
@@ -706,7 +716,6 @@ func TestVerifC14RHP2(t *testing.T) {
 				stage = "signature"
 			})
 			_ = newRoot
-			_, rootsAfter := state()
 			var terms []string
 			for k, a := range acts {
 				switch metas[k].kind {
@@ -725,15 +734,7 @@ func TestVerifC14RHP2(t *testing.T) {
 				case "swap":
 					terms = append(terms, fmt.Sprintf("WSwap %d %d", a.A, a.B))
 				case "update":
-					// the new root is whatever the host computed: read it back when the RPC succeeded
-					nr := "0"
-					if rerr == nil && len(sim) == len(rootsAfter) {
-						for p := range sim {
-							if sim[p] == (types.Hash256{0xFF, 0xFE, byte(k)}) {
-								nr = c14LE(rootsAfter[p][:]).String()
-							}
-						}
-					}
+					nr := c14LE(metas[k].newRoot[:]).String()
 					terms = append(terms, fmt.Sprintf("WUpdate %d %d %d %s %s", a.A, a.B, len(a.Data), coqBool(metas[k].present), nr))
 				default:
 					terms = append(terms, "WUnknown")
